@@ -56,6 +56,18 @@ CHECKS = {
         note="Siblings are each-choice; naive datetime is taken as UTC; strings containing CR are outside the XML route's domain (XML line-end normalisation); "
              "newline-bearing map keys are not held to the notation-newline sentence (it speaks of string values); tz database, msggen/refwire and stdlib "
              "datetime arithmetic trusted."),
+    "C20": dict(
+        category="exploration", design_ref="DESIGN.md §4 C20",
+        technique="bounded-exhaustive enumeration of inventory models / wearables / wire-first animations and meshes, and of every chunk arrival sequence "
+                  "(with duplicates) through the real Xfer/Transfer handlers on a virtual asyncio loop",
+        text="(1) Inventory nodes (presence of all optional item fields x metadata shapes, every AssetType/InventoryType/FolderType/SaleType member), <=3-node "
+             "models and 17x3x3 wearables in legacy text, legacy LLSD and AIS: parse(serialize(x)) == x and serialisation fixed point. (2) Animations of both "
+             "versions built wire-first incl. a sweep of the U16 grid of each quantised member. (3) Mesh assets over all subsets of 9 segment kinds with all "
+             "weight-length vectors, parsed / raw-segment / unparsed. (4) Every chunk arrival sequence of length n+2 (quick) / n+3 (thorough) over n<=4 chunks at "
+             "every chunk-boundary payload size: completion exactly at the first prefix containing all chunks, never earlier, never reverting; payload equal.",
+        note="Names/descriptions without TAB/CR/LF/'|' and without leading/trailing whitespace (format domain); fields a flavour cannot carry at that flavour's "
+             "default; required fields carry a value (parent_id=None out of domain); dates at whole seconds, TZ=UTC; floats NaN-free and f32-exact; animation "
+             "and mesh models are the parse of a reference wire image; Transfer sender packets follow the simulator (1000-byte chunks); UDP codec trusted."),
 }
 
 PENDING_REASON = "check not built yet (build in progress; will be claimed once its harness exists)"
